@@ -1,6 +1,7 @@
 package harness
 
 import (
+	"encoding/json"
 	"fmt"
 	"math"
 )
@@ -98,6 +99,13 @@ func init() {
 	plans["C04"] = func(thorough bool) []*Job {
 		jobs := c04conc(thorough)
 		for _, j := range c04seq(thorough) {
+			var sp seqParams
+			if err := json.Unmarshal(j.Params, &sp); err != nil {
+				panic(err)
+			}
+			if sp.Cfg.MaxSize == 0 && sp.Cfg.MaxWeight == 0 {
+				continue // the size bound only exists in bounded configurations
+			}
 			j.Need = []string{"overflow-evictions"}
 			jobs = append(jobs, j)
 		}
